@@ -21,7 +21,7 @@ from common import sx, parse_sx, err_name, VERIF
 KNOWN_LOCAL = []      # C18-shared-array-default is repaired in /repo fcb8b8f (recorded as `fixed`, suppresses nothing)
 
 _UNIQ = itertools.count()
-HEAPD = False         # the driver answers `heapd.run` (Model/HeapD.lean: declared defaults on array / record fields, 2-D arrays)
+HEAPD = True          # the driver answers `heapd.run` (Model/HeapD.lean: declared defaults on array / record fields, 2-D arrays)
 
 INT_TYPES = {  # (width, signed, big endian) -> attribute of nasdaq_protocols.common.message.types
     (1, 0, 0): 'Byte',
@@ -213,6 +213,23 @@ def has_declared_defaults(spec):
     (a world is then used for ONE history), and Model/Heap.lean cannot express the schema (Model/HeapD.lean can)"""
     return any(c[0] == 'rec' and any((f[0] == 'arr' and (len(f) > 3 or f[1][0] == 'arr')) or (f[0] == 'recd' and len(f) > 2) for f in c[2:])
                for c in spec)
+
+
+def tree_has_record(t):
+    return isinstance(t, list) and bool(t) and (t[0] == 'o' or any(tree_has_record(x) for x in t[1:]))
+
+
+def model_expressible(spec):
+    """what `heapd.run` (Model/HeapD.lean + the codec of Model/Heap.lean) covers of the schemas with declared defaults: everything but
+    two-dimensional arrays (no row codec in the model) and array defaults that contain records (reading them raises in the library:
+    `copy.deepcopy` of a record trips over `_Record.__getattr__`); those histories are judged by the oracle alone"""
+    for c in spec:
+        if c[0] != 'rec':
+            continue
+        for f in c[2:]:
+            if f[0] == 'arr' and (f[1][0] == 'arr' or (len(f) > 3 and tree_has_record(f[3]))):
+                return False
+    return True
 
 
 def is_mutable(x):
@@ -467,12 +484,19 @@ def impl_result_sx(status, rd, views):
     return sx([status, rd] + views)
 
 
-def model_results(ctx, spec, ops):
+def model_line(ctx, spec, ops):
+    """the request for the model driver, or None when the model is not asked about this history"""
     if not ctx.driver.available:
         return None
-    if has_declared_defaults(spec) and not HEAPD:
+    if has_declared_defaults(spec) and not (HEAPD and model_expressible(spec)):
         return None
-    line = f'heap.run {spec_sx(spec)} {ops_sx(ops)}'
+    return f'{"heapd.run" if has_declared_defaults(spec) else "heap.run"} {spec_sx(spec)} {ops_sx(ops)}'
+
+
+def model_results(ctx, spec, ops):
+    line = model_line(ctx, spec, ops)
+    if line is None:
+        return None
     ans = ctx.driver.ask([line])[0]
     return parse_sx(ans)[0] if ans != 'bad-request' else 'bad-request'
 
@@ -690,7 +714,7 @@ def gen_field(rng, n_lower, kind=None):
     return ['recd', rng.randrange(n_lower)]
 
 
-def add_declared_defaults(rng, spec):
+def add_declared_defaults(rng, spec, plain=False):
     """the same schema with DECLARED defaults: on array fields (lists of ints, of records, of rows for two-dimensional arrays), on
     record-typed fields (a record that holds lists and records itself), at the top level and on fields inside nested records;
     some one-dimensional int arrays become two-dimensional"""
@@ -699,9 +723,12 @@ def add_declared_defaults(rng, spec):
         fs = []
         for f in d[2:]:
             f = list(f)
-            if f[0] == 'arr' and f[1][0] == 'int' and rng.random() < 0.3:
+            if f[0] == 'arr' and f[1][0] == 'int' and rng.random() < 0.3 and not plain:
                 f[1] = ['arr', f[1], rng.choice([[2, 0, 0], [2, 0, 1], [2, 1, 0]])]
-            if f[0] == 'arr' and rng.random() < 0.6:
+            if f[0] == 'arr' and f[1][0] == 'recd' and plain:
+                if rng.random() < 0.3:
+                    f = f[:3] + [['l']]            # an empty list as the declared default of an array of records
+            elif f[0] == 'arr' and rng.random() < 0.6:
                 f = f[:3] + [['l'] + [gen_tree_for_ety(rng, out + [d], f[1]) for _ in range(rng.choice([1, 1, 2, 3]))]]
             elif f[0] == 'recd' and rng.random() < 0.6:
                 f = f[:2] + [gen_record_tree(rng, out, f[1])]
@@ -1110,8 +1137,9 @@ def report(ctx, spec, ops, finding, proto, world=None):
     ctx.violation(f2[2], replay)
 
 
-def check_history(ctx, spec, ops, proto, world=None):
-    """oracle + correspondence for one history"""
+def check_history(ctx, spec, ops, proto, world=None, defer=None):
+    """oracle + correspondence for one history (defer: a list that collects the model questions, asked in one batch by
+    `flush_model` - one driver process for many histories)"""
     try:
         results, findings, r = execute(spec, ops, world)
     except Exception as e:  # noqa  (a modified library may break class construction itself)
@@ -1127,14 +1155,34 @@ def check_history(ctx, spec, ops, proto, world=None):
             report(ctx, spec, ops, f, proto, world)
     if r.polluted:
         ctx.count(f'{proto}:history-mutating-class-level-default')
-    model = model_results(ctx, spec, ops)
-    if model is None:
+    line = model_line(ctx, spec, ops)
+    if has_declared_defaults(spec):
+        ctx.count(f'{proto}:' + ('compared-with-heapd.run' if line is not None else 'oracle-only(2-D array or records inside a default)'))
+    if line is None:
         return
+    impl = [impl_result_sx(res[0], res[1], res[2:]) for res in results]
+    if defer is not None:
+        defer.append((line, spec, ops, proto, impl, r.polluted))
+        return
+    ans = ctx.driver.ask([line])[0]
+    compare_with_model(ctx, ans, spec, ops, proto, impl, r.polluted)
+
+
+def flush_model(ctx, deferred):
+    if deferred:
+        for ans, d in zip(ctx.driver.ask([d[0] for d in deferred]), deferred):
+            compare_with_model(ctx, ans, *d[1:])
+        del deferred[:]
+
+
+def compare_with_model(ctx, ans, spec, ops, proto, impl_lines, polluted):
+    model = parse_sx(ans)[0] if ans != 'bad-request' else 'bad-request'
+    results = impl_lines
     if model == 'bad-request' or len(model) != len(results):
         ctx.disagree('heap.run: the driver rejected the request', {'kind': 'correspondence', 'proto': proto, 'spec': spec_sx(spec), 'ops': ops_sx(ops)})
         return
     for i, (m, res) in enumerate(zip(model, results)):
-        impl = parse_sx(impl_result_sx(res[0], res[1], res[2:]))[0]
+        impl = parse_sx(res)[0]
         d = same_result(m, impl)
         if d is not None:
             ctx.disagree(f'{proto} history, op {i} {sx(ops[i])[:80]}: {d}',
@@ -1142,9 +1190,9 @@ def check_history(ctx, spec, ops, proto, world=None):
             break
     # the model's ghost flag and the harness' own identity test must agree on which histories touch a class-level object
     unsafe = any(m[1] == '0' for m in model)
-    if unsafe != r.polluted and class_level_default() is not None:
+    if unsafe != polluted and class_level_default() is not None:
         ctx.disagree(f'{proto} history: model classSafe={not unsafe} but the implementation '
-                     f'{"did" if r.polluted else "did not"} write into Array.default_value',
+                     f'{"did" if polluted else "did not"} write into Array.default_value',
                      {'kind': 'correspondence', 'proto': proto, 'spec': spec_sx(spec), 'ops': ops_sx(ops)})
 
 
@@ -1204,11 +1252,13 @@ def run(ctx):
         ctx.count('corpus')
         check_history(ctx, spec, ops, proto)
     # ---- generated
+    deferred = []
     for proto in ('bin', 'bin-defaults', 'fix'):
         for _ in range(n_worlds[proto]):
             spec = gen_fix_spec(rng) if proto == 'fix' else gen_bin_spec(rng)
             if proto == 'bin-defaults':
-                spec = add_declared_defaults(rng, spec)
+                # every other schema stays inside what Model/HeapD.lean + the model's codec express (see model_expressible)
+                spec = add_declared_defaults(rng, spec, plain=rng.random() < 0.5)
             try:
                 world = World(spec)
             except Exception as e:  # noqa
@@ -1225,7 +1275,10 @@ def run(ctx):
                                   {'kind': 'harness-exception', 'proto': proto, 'spec': spec_sx(spec), 'ops': '()'})
                     continue
                 ctx.case((spec_sx(spec), ops_sx(ops)), nontrivial=True, sample_every=53)
-                check_history(ctx, spec, ops, proto, world)
+                check_history(ctx, spec, ops, proto, world, defer=deferred)
+                if len(deferred) >= 60:
+                    flush_model(ctx, deferred)
+    flush_model(ctx, deferred)
     reset_globals()
 
 
